@@ -3,6 +3,7 @@ package blocktransactions
 import (
 	"context"
 	"errors"
+	"fmt"
 	"time"
 
 	"github.com/NethermindEth/juno/blockchain/networks"
@@ -144,6 +145,12 @@ func (Migrator) Migrate(
 
 		if !shouldMigrate {
 			logger.Info("no starting block found, exiting")
+			// Blocks without transactions leave nothing in the old layout, so ranges made
+			// of them only (below the first transaction, or not yet reached when an earlier
+			// run was interrupted) are never visited: give them their empty entry now.
+			if err := fillEmptyBlocks(database, chainHeight); err != nil {
+				return shouldRerun, err
+			}
 			return shouldNotRerun, clearOldBuckets(database)
 		}
 
@@ -152,4 +159,46 @@ func (Migrator) Migrate(
 			return shouldRerun, res.Err
 		}
 	}
+}
+
+// fillEmptyBlocks writes the (empty) combined entry of every retained block that has
+// none. Such a block must be declared empty by its header; anything else means
+// transaction data was lost and is reported.
+func fillEmptyBlocks(database db.KeyValueStore, chainHeight uint64) error {
+	batch := database.NewBatch()
+	defer batch.Close()
+
+	for blockNumber := uint64(0); blockNumber <= chainHeight; blockNumber++ {
+		has, err := core.BlockTransactionsBucket.Has(database, blockNumber)
+		if err != nil {
+			return err
+		}
+		if has {
+			continue
+		}
+
+		header, err := core.GetBlockHeaderByNumber(database, blockNumber)
+		if errors.Is(err, db.ErrKeyNotFound) {
+			continue // pruned block
+		}
+		if err != nil {
+			return err
+		}
+		if header.TransactionCount != 0 {
+			return fmt.Errorf(
+				"block %d declares %d transactions but has none in either layout",
+				blockNumber, header.TransactionCount,
+			)
+		}
+
+		empty, err := core.NewBlockTransactions(nil, nil)
+		if err != nil {
+			return err
+		}
+		if err := core.BlockTransactionsBucket.Put(batch, blockNumber, &empty); err != nil {
+			return err
+		}
+	}
+
+	return batch.Write()
 }
